@@ -542,11 +542,13 @@ def cases(tier, seed):
                 out.append(("grid N=%d remove_invalid=%s %s" % (N, ri, var),
                             dict(kind="grid", N=N, ri=ri, variant=var)))
     out.append(("populate N=3", dict(kind="populate", N=3)))
-    NS = 2 if tier == "quick" else 3
+    NS = 3
     for N in range(1, NS + 1):
         for ri in (False, True):
             for xs, ys in (("linear", "linear"), ("log", "linear"),
                            ("linear", "log")):
+                if tier == "quick" and N == 3 and xs != ys:
+                    continue
                 out.append(("scatter N=%d ri=%s %s/%s" % (N, ri, xs, ys),
                             dict(kind="scatter", N=N, ri=ri, xs=xs, ys=ys,
                                  variant="first")))
